@@ -5,6 +5,7 @@ verus! {
 //@include prelude/float.rs
 //@include prelude/ndarray.rs
 //@include prelude/ndfloat.rs
+//@include prelude/ndtrack.rs
 
 pub mod unit_stats {
     use vstd::prelude::*;
@@ -13,6 +14,7 @@ pub mod unit_stats {
     use super::fl::*;
     use super::nd::*;
     use super::ndf::*;
+    use super::ndt::{ToPrimitive, vdim3};
     broadcast use super::fl::fl_axioms, super::ndf::ndf_axioms, super::ndf::ax_mk_a1;
 
     // ---- C11: split R-hat written from the statement ---------------------------------------
@@ -467,6 +469,54 @@ pub mod unit_stats {
         //@|     assert(runstats_post(v3(sample), dim3(sample).0, dim3(sample).1, dim3(sample).2, rhat, ess));
         //@| }
         //@end
+
+        /// `impl<T> From<ArrayView3<'_, T>> for RunStats` (the summary of ChainRunner::run_progress for any element type):
+        /// the summary of the sample converted element-wise with `to_f32`
+        pub fn from<T: ToPrimitive>(sample: ArrayView3<T>) -> (r: Self)
+            requires vdim3(sample).0 >= 1, 2 <= vdim3(sample).1, vdim3(sample).1 / 2 <= i32::MAX, vdim3(sample).2 >= 1,
+                forall |i: int, j: int, k: int| 0 <= i < vdim3(sample).0 && 0 <= j < vdim3(sample).1 && 0 <= k < vdim3(sample).2
+                    ==> (#[trigger] v3(sample)[i][j][k]).f32_of() is Some && val(v3(sample)[i][j][k].f32_of()->Some_0) is Fin,
+            ensures runstats_post(conv3(v3(sample), vdim3(sample).0, vdim3(sample).1, vdim3(sample).2), vdim3(sample).0, vdim3(sample).1, vdim3(sample).2, r.rhat, r.ess)      // [C10.run_summary_for_any_element_type_is_that_of_the_to_f32_converted_sample]
+        //@body id=runstats_from file=src/stats.rs impl_self=RunStats impl_trait=From name=from props=C10,C11
+        //@sig fn from (sample : ArrayView3 < T >) -> Self
+        //@rules R-f64
+        //@closure 1 params="x: T" ret="(r: Fl)"
+        //@| requires x.f32_of() is Some
+        //@| ensures r == x.f32_of()->Some_0
+        //@anchor m0 scope=fn pos=after match="^let f32_sample ="
+        //@| let ghost (c, n, d) = vdim3(sample);
+        //@| let ghost cx = conv3(v3(sample), c, n, d);
+        //@| proof {
+        //@|     assert forall |i: int| 0 <= i < c implies (#[trigger] a3(f32_sample)[i]) =~= cx[i] by {
+        //@|         assert(rect2(a3(f32_sample)[i], n, d));
+        //@|         assert forall |j: int| 0 <= j < n implies (#[trigger] a3(f32_sample)[i][j]) =~= cx[i][j] by {
+        //@|             assert forall |k: int| 0 <= k < d implies (#[trigger] a3(f32_sample)[i][j][k]) == cx[i][j][k] by {}
+        //@|         }
+        //@|     }
+        //@|     assert(a3(f32_sample) =~= cx);
+        //@|     assert(fin3(cx)) by {
+        //@|         assert forall |i: int| 0 <= i < cx.len() implies fin2(#[trigger] cx[i]) by {
+        //@|             assert forall |j: int| 0 <= j < cx[i].len() implies fin1(#[trigger] cx[i][j]) by {
+        //@|                 assert forall |k: int| 0 <= k < cx[i][j].len() implies val(#[trigger] cx[i][j][k]) is Fin by { assert(v3(sample)[i][j][k].f32_of() is Some); }
+        //@|             }
+        //@|         }
+        //@|     }
+        //@| }
+        //@anchor a0 scope=fn pos=after match="^let \\(rhat , ess\\) ="
+        //@| let ghost rh = a1(rhat);
+        //@| let ghost es = a1(ess);
+        //@anchor a1 scope=fn pos=before match="^RunStats \\{"
+        //@| proof {
+        //@|     assert(split_rhat_post(cx, c, n, d, rh));
+        //@|     assert(es.len() == d);
+        //@|     assert(summary_post(rh, rhat) && summary_post(es, ess));
+        //@|     assert(runstats_post(cx, c, n, d, rhat, ess));
+        //@| }
+        //@end
+    }
+    /// the sample converted element by element with `ToPrimitive::to_f32`
+    pub open spec fn conv3<T: ToPrimitive>(x: Seq<Seq<Seq<T>>>, c: int, n: int, d: int) -> Seq<Seq<Seq<Fl>>> {
+        Seq::new(c as nat, |i: int| Seq::new(n as nat, |j: int| Seq::new(d as nat, |k: int| x[i][j][k].f32_of()->Some_0)))
     }
 }
 } // verus!
